@@ -1182,7 +1182,19 @@ impl SDoc {
 
 pub fn arb_edit() -> BoxedStrategy<Edit> {
     let cfg = crate::tval::GenCfg { utf8: true, max_big: 4097, max_children: 3 };
-    let any_val = (0u32..=2).prop_flat_map(move |d| crate::tval::arb_any(d, cfg));
+    // unknown values: mostly shallow; one in five is a container whose elements are built one
+    // level deeper than arb_any would (maps with a struct on one side only, structs that hold
+    // structs inside map keys / values / list elements: the shapes on which the skippers' fast
+    // and slow paths part)
+    let shallow = (0u32..=2).prop_flat_map(move |d| crate::tval::arb_any(d, cfg));
+    let side = || prop::sample::select(vec![TT::I8, TT::I32, TT::I64, TT::Double, TT::Uuid, TT::Bool, TT::Binary, TT::Struct, TT::Struct]);
+    let deep_map = (side(), side(), 1usize..4).prop_flat_map(move |(kt, vt, n)| {
+        prop::collection::vec((crate::tval::arb_of(kt, 2, cfg), crate::tval::arb_of(vt, 2, cfg)), n).prop_map(move |es| TVal::Map(kt, vt, es))
+    });
+    let deep_seq = (side(), any::<bool>(), 1usize..4).prop_flat_map(move |(et, is_set, n)| {
+        prop::collection::vec(crate::tval::arb_of(et, 2, cfg), n).prop_map(move |es| if is_set { TVal::Set(et, es) } else { TVal::List(et, es) })
+    });
+    let any_val = prop_oneof![8 => shallow, 1 => deep_map, 1 => deep_seq].boxed();
     prop_oneof![
         5 => (any::<u16>(), any::<u16>(), any::<u8>(), any_val.clone()).prop_map(|(a, b, c, d)| Edit::AddUnknown(a, b, c, d)),
         2 => (any::<u16>(), any::<u8>()).prop_map(|(a, b)| Edit::Remove(a, b)),
